@@ -2,9 +2,12 @@
 // Monitor: generated repositories of gentest targets whose outcome is a deterministic function of
 // exactly one runtime input each (a data file, a pair / list of data files, a data directory, the
 // output of a data target, the test binary, the test command, a pass_env value, a run-time
-// dependency, a run-time dependency of a data target, a test tool, a results file), driven by the
-// real plz binary through edit histories that flip those inputs between passing and failing values
-// (plus renames, reverts, plz-out wipes with and without a directory cache, repeated invocations).
+// dependency, a run-time dependency of a data target, a test tool, a results file, the active
+// entry of a per-config test command dict, a data file that only un-selected cases read), driven by
+// the real plz binary through edit histories that flip those inputs between passing and failing
+// values (plus renames, reverts, plz-out wipes with and without a directory cache, repeated
+// invocations, and runs restricted by test arguments -- `plz test <targets> -- <selector>` -- that
+// precede the plain run).
 // Oracle: after every step a FRESH run (same sources written to the same absolute path, empty
 // plz-out, no cache) gives the reference outcome per target and the reference exit status; the
 // incremental `plz test` must agree on both. The test command carries the action probe, so
@@ -56,7 +59,10 @@ func (s *state) clone() *state {
 }
 
 var kinds = []string{"data-file", "data-pair", "data-list", "data-target", "data-dir", "test-binary", "test-cmd", "pass-env",
-	"data-runtime-dep", "runtime-dep", "test-tool", "results-file"}
+	"data-runtime-dep", "runtime-dep", "test-tool", "results-file", "test-cmd-dict", "test-args"}
+
+// selector is the test argument of a restricted run: it selects the case that always passes.
+const selector = "alpha"
 
 var renamable = map[string]string{
 	"data-target":      "rename-output-of-data-target",
@@ -165,6 +171,16 @@ func (s *state) render(vlog, cacheDir string) (map[string]string, []string) {
 			}
 			r.Str("test_cmd", probe+": "+t.Tok+"; "+c)
 			noOut = t.NoOut
+		case "test-cmd-dict": // per-config commands; `plz test` uses the default config, opt. The other config holds the opposite command.
+			good, bad := probe+": P"+t.Tok+"; true", probe+": F"+t.Tok+"; false"
+			if t.Pass {
+				r.Add("test_cmd", x.PyDict(map[string]string{"opt": good, "dbg": bad}))
+			} else {
+				r.Add("test_cmd", x.PyDict(map[string]string{"opt": bad, "dbg": good}))
+			}
+		case "test-args": // arguments select cases (plz appends them to the command); without arguments every case runs
+			files[pkg+"/"+n+".dat"] = verdictText(t.Pass, t.Tok)
+			r.Str("test_cmd", probe+`run() { [ "$#" -gt 0 ] || set -- `+selector+` beta; for c in "$@"; do case "$c" in `+selector+`) ;; *) grep -q '^PASS' `+pkg+"/"+n+`.dat || return 1 ;; esac; done; }; run`).List("data", []string{n + ".dat"})
 		case "pass-env":
 			v := "bad-" + t.Tok
 			if t.Pass {
@@ -210,7 +226,7 @@ func (s *state) render(vlog, cacheDir string) (map[string]string, []string) {
 func generate(rng *rand.Rand) *state {
 	s := &state{Neutral: "n " + x.Token(rng, 8) + "\n", Cache: rng.Intn(5) < 2}
 	order := rng.Perm(len(kinds))
-	n := 5 + rng.Intn(2)
+	n := 6 + rng.Intn(2)
 	for i := 0; i < n; i++ {
 		k := kinds[order[i]]
 		t := &tst{Kind: k, Name: fmt.Sprintf("t%d", i), Pass: rng.Intn(4) != 0, Tok: x.Token(rng, 10), NoOut: true}
@@ -233,6 +249,9 @@ func editTest(rng *rand.Rand, t *tst) string {
 	case t.Kind == "test-cmd" && c < 25:
 		t.NoOut = !t.NoOut
 		return "toggle-no_test_output"
+	case t.Kind == "test-cmd-dict" && c < 35: // the same two commands, exchanged between the configs
+		t.Pass = !t.Pass
+		return "swap-commands-of-configs"
 	case c < 80 || t.Kind == "data-list":
 		t.Pass = !t.Pass
 		t.Tok = x.Token(rng, 10)
@@ -313,6 +332,25 @@ func (rn *runner) incremental(env []string) (outcome, e2e.Probe, lib.PlzResult) 
 	return readOutcome(rn.sb.Repo, res), rn.sb.ReadProbe(), res
 }
 
+// withArgs is a run restricted by test arguments: `plz test <labels> -- <selector>`.
+func (rn *runner) withArgs(env []string, labels []string) (outcome, e2e.Probe, lib.PlzResult) {
+	os.Remove(filepath.Join(rn.sb.Repo, "plz-out/log/test_results.xml"))
+	rn.sb.ResetProbe()
+	args := append(append([]string{"test"}, labels...), "--", selector)
+	res := rn.sb.Plz(rn.bin, env, 240*time.Second, args...)
+	return readOutcome(rn.sb.Repo, res), rn.sb.ReadProbe(), res
+}
+
+func argLabels(s *state) []string {
+	var ls []string
+	for _, t := range s.Tests {
+		if t.Kind == "test-args" {
+			ls = append(ls, t.label())
+		}
+	}
+	return ls
+}
+
 // fresh is the oracle: the same sources at the same absolute path, empty plz-out, no cache.
 func (rn *runner) fresh(files map[string]string, env []string) (outcome, lib.PlzResult) {
 	sb := rn.sb
@@ -368,10 +406,10 @@ func diffFiles(a, b map[string]string) map[string][2]string {
 func TestC11(t *testing.T) {
 	r := lib.Start("C11")
 	defer lib.End(t, r)
-	r.Rule = "case = one (test target, incremental `plz test` invocation) pair in a generated edit history, compared with a fresh run of the same tree at the same path; distinct by (repository files, caller environment, operations of the step, target); non-trivial = since the target's previous invocation one of its runtime inputs was edited (flip/refresh/rename/list change/command/env), plz-out was wiped, the state was reverted, or its previous outcome was a failure"
+	r.Rule = "case = one (test target, incremental `plz test` invocation) pair in a generated edit history, compared with a fresh run of the same tree at the same path; distinct by (repository files, caller environment, operations of the step, target); non-trivial = since the target's previous invocation one of its runtime inputs was edited (flip/refresh/rename/list change/command/env), plz-out was wiped, the state was reverted, its previous outcome was a failure, or it executed in a run restricted by test arguments in between"
 	r.Assumes = []string{"generated test commands are deterministic functions of their declared runtime inputs", "a fresh run (same absolute path, empty plz-out, cache disabled) is the reference outcome", "whether a test command executed is observed by a mkdir marker baked into the command", "plz-out/log/test_results.xml is the per-target pass/fail/cached report"}
 	bin := lib.PlzBin(false)
-	n := r.Pick(20, 200)
+	n := r.Pick(19, 190)
 	steps := 4 // edit steps after the initial invocation
 	var minimised sync.Map
 	r.ForEach("history", n, 8, func(i int, rng *rand.Rand) {
@@ -384,6 +422,7 @@ func TestC11(t *testing.T) {
 		passedAt := map[string][]*tst{} // label -> input states at which the target executed and passed (what a reuse can stem from)
 		lastExec := map[string]*tst{}   // label -> input state at its last execution
 		wipedSince := map[string]bool{} // label -> plz-out was wiped since its last execution
+		argsExec := map[string]bool{}   // label -> executed (and reported passed) in a run with test arguments since its last execution in a plain run
 		prevPass := map[string]bool{}   // label -> outcome plz reported at the previous invocation
 		freshMemo := map[string]outcome{}
 		var prevFiles map[string]string
@@ -470,6 +509,31 @@ func TestC11(t *testing.T) {
 				}
 				freshMemo[fkey] = fr
 			}
+			// a run restricted by test arguments before the plain run: whatever it leaves behind must not answer for the plain run
+			var argsRun []string
+			if al := argLabels(s); len(al) > 0 && rng.Intn(2) == 0 {
+				argsRun = al
+				ao, ap, ares := rn.withArgs(env, al)
+				if ares.TimedOut {
+					r.Inconclusive(fmt.Sprintf("history %d step %d: plz test with arguments timed out", i, step))
+					return
+				}
+				r.Obs("runs_with_test_args", 1)
+				ops = append(ops, "preceded-by-run-with-test-args")
+				r.ObsDistinct("operations", "preceded-by-run-with-test-args")
+				trail = append(trail, stepRec{step, []string{"plz test " + strings.Join(al, " ") + " -- " + selector}, env, ap.Started, ao, outcome{}})
+				for _, tt := range s.Tests {
+					if tt.Kind == "test-args" && x.Ran(ap.Started, tt.Name) {
+						r.Obs("tests_executed_with_args", 1)
+						if ao.Pass[tt.label()] {
+							argsExec[tt.label()] = true
+							if !tt.Pass {
+								r.Obs("selected_subset_passed_where_full_run_fails", 1)
+							}
+						}
+					}
+				}
+			}
 			reps := 1
 			if rng.Intn(2) == 0 {
 				reps = 2
@@ -511,11 +575,14 @@ func TestC11(t *testing.T) {
 					// what separates the current inputs from the closest earlier inputs on which this target executed and passed
 					cause := netDiff(closest(passedAt[l], tt), tt)
 					sinceLast := netDiff(lastExec[l], tt)
-					nontrivial := had && (len(sinceLast) > 0 || len(touched[l]) > 0 || wipedSince[l] || !prevPass[l])
+					nontrivial := had && (len(sinceLast) > 0 || len(touched[l]) > 0 || wipedSince[l] || !prevPass[l] || argsExec[l])
 					r.Case(lib.Hash(lib.JSON(files), lib.JSON(env), strings.Join(ops, ","), l), nontrivial)
 					r.Obs("target_checks", 1)
 					r.ObsDistinct("test_kinds", tt.Kind)
 					ck := causeKey(cause, wipedSince[l])
+					if argsExec[l] {
+						ck = "after-passing-run-with-test-args"
+					}
 					wit2 := func() map[string]any {
 						w := map[string]any{"target": l, "kind": tt.Kind, "difference_to_closest_earlier_passing_execution": cause, "difference_to_last_execution": sinceLast, "previous_reported_outcome_pass": prevPass[l]}
 						for k, v := range wit {
@@ -563,7 +630,7 @@ func TestC11(t *testing.T) {
 							me.mu.Lock()
 							if rep, _ := me.res["reproduced"].(bool); !rep && me.tries < 3 {
 								me.tries++
-								me.res = minimise(r, bin, sb, i, prevFiles, prevEnv, files, env, l, wiped, fr.Pass[l])
+								me.res = minimise(r, bin, sb, i, prevFiles, prevEnv, files, env, l, wiped, fr.Pass[l], argsRun)
 								me.res["from_history"] = i
 							}
 							w["minimal"] = me.res
@@ -588,6 +655,10 @@ func TestC11(t *testing.T) {
 						}
 					}
 					if ran {
+						if argsExec[l] && inc.Pass[l] == fr.Pass[l] {
+							r.Obs("plain_runs_reexecuting_after_run_with_args", 1)
+						}
+						argsExec[l] = false
 						c := *tt
 						lastExec[l] = &c
 						wipedSince[l] = false
@@ -612,7 +683,8 @@ func TestC11(t *testing.T) {
 		}
 	})
 	r.RequireObserved("incremental_invocations", "fresh_runs", "executed_tests", "cached_reports", "reused_pass_confirmed_by_fresh_run",
-		"reruns_after_input_change", "previously_failing_reexecuted", "failing_outcomes_agreeing", "outcome_flips_tracked")
+		"reruns_after_input_change", "previously_failing_reexecuted", "failing_outcomes_agreeing", "outcome_flips_tracked",
+		"runs_with_test_args", "tests_executed_with_args", "selected_subset_passed_where_full_run_fails", "plain_runs_reexecuting_after_run_with_args")
 }
 
 type minEntry struct {
@@ -694,8 +766,11 @@ func causeKey(cause []string, wiped bool) string {
 
 // minimise re-plays only the last transition (previous tree -> current tree) in a new sandbox and
 // reports whether the disagreement for the target reproduces from those two states alone.
-func minimise(r *lib.Run, bin string, parent *e2e.Sandbox, i int, prevFiles map[string]string, prevEnv []string, files map[string]string, env []string, label string, wiped bool, freshPass bool) map[string]any {
+func minimise(r *lib.Run, bin string, parent *e2e.Sandbox, i int, prevFiles map[string]string, prevEnv []string, files map[string]string, env []string, label string, wiped bool, freshPass bool, argsRun []string) map[string]any {
 	out := map[string]any{"steps": "1: plz test //... on previous tree; 2: apply files_changed; 3: plz test //...", "files_changed": diffFiles(prevFiles, files)}
+	if len(argsRun) > 0 {
+		out["steps"] = "1: plz test //... on previous tree; 2: apply files_changed; 2b: plz test " + strings.Join(argsRun, " ") + " -- " + selector + "; 3: plz test //..."
+	}
 	if lib.JSON(prevEnv) != lib.JSON(env) {
 		out["env_before"], out["env_after"] = prevEnv, env
 	}
@@ -718,6 +793,10 @@ func minimise(r *lib.Run, bin string, parent *e2e.Sandbox, i int, prevFiles map[
 		lib.RemoveAll(filepath.Join(sb.Repo, "plz-out"))
 	}
 	must(x.SyncTree(sb.Repo, files, nil))
+	if len(argsRun) > 0 {
+		oa, pa, _ := rn.withArgs(env, argsRun)
+		out["run_with_args_pass"], out["run_with_args_executed"] = oa.Pass[label], pa.Started
+	}
 	o2, p2, _ := rn.incremental(env)
 	out["first_run_pass"] = o1.Pass[label]
 	out["second_run_pass"] = o2.Pass[label]
